@@ -45,8 +45,10 @@ ASSUMPTIONS = [
     "with the model",
     "sort.Slice in matchingVersionsWithPrereleases modelled as Go's insertion sort (lists of at most 12 versions)",
     "C08_candidates_exact_partial assumes that the provider answers in one consistent strict order (LocalClient: ascending "
-    "versions; intersect relies on it, as its comment says); without it the statement is refuted by a witness that is "
-    "replayed on the Go resolver through the table client on every run",
+    "versions; intersect relies on it, as its comment says); C08_candidates_exact_client_partial states it on the client "
+    "(MatchingVersions and Versions answers strictly ascending, the comparator deciding that order); the share of recorded "
+    "tables meeting it is measured on every run (tables with two spellings of one version do not). Without it the statement "
+    "is refuted by a witness that is replayed on the Go resolver through the table client on every run",
 ]
 
 MANIFEST = dict(
@@ -865,9 +867,11 @@ def run_batch(ctx, unis, label):
                 ctx.count("marker_evaluations_compared_with_reference")
                 if bool(val) != bool(marker_truth(tree, set(ex))):
                     ctx.count("marker_evaluations_differing_from_reference")
-        for r, (rec, raw_differs, raw_obs, nondet, inconsistent, wf, rejected), iobs, mobs, nb in zip(
+        for r, (rec, raw_differs, raw_obs, nondet, inconsistent, wf, rejected, ordered), iobs, mobs, nb in zip(
                 roots, per, impl_obs, model_obs, nb_list):
             ctx.count("corr:roots")
+            ctx.count("tables_meeting_the_order_hypotheses_of_candidates_exact" if ordered
+                      else "tables_outside_the_order_hypotheses_of_candidates_exact")
             inp = LazyInput(names, vers, uni, r)
             if inconsistent:
                 violation("the client gave two different answers to the same call within one resolution",
